@@ -10,7 +10,8 @@
 (*                            (codes per lane) BEFORE any overwrite        *)
 (*  inj    [line, vals]       signal overwritten (line = -1: untouched)    *)
 (*  resp                      s[1] of this run;  plain: s[1] without any   *)
-(*                            callback                                     *)
+(*                            callback; rerun: s[1] after propagating the  *)
+(*                            SAME simulator once more without callback    *)
 (* One state per lane.                                                     *)
 (***************************************************************************)
 EXTENDS Netlist, TLC, Json, IOUtils
@@ -57,6 +58,8 @@ ViewIsFresh == (Ok => \A i \in 1..Len(SigCalls) : LET x == SigCalls[i].line IN
                                             VPlain[x + 1] ELSE V[x + 1])) \/ Fail("ViewIsFresh")
 \* leaving the values untouched changes nothing
 NoOpUnchanged == (Ok /\ R.inj.line < 0 => \A i \in 1..NS : HasCapture(St, i) => R.resp[i][p] = R.plain[i][p]) \/ Fail("NoOpUnchanged")
+\* ... also afterwards: propagating the same simulator again without a callback gives the untouched result
+RerunClean == (Ok => \A i \in 1..NS : HasCapture(St, i) => R.rerun[i][p] = R.plain[i][p]) \/ Fail("RerunClean")
 \* overwriting = simulating the circuit in which that signal is driven with the overwritten values
 OverrideIsRedrive == (Ok => \A i \in 1..NS : HasCapture(St, i) => R.resp[i][p] = Captured(St, V, i)) \/ Fail("OverrideIsRedrive")
 =============================================================================
